@@ -93,10 +93,11 @@ class K:
             members.append((f.vis, s + ";"))
         for i, f in enumerate(self.fields):
             st = "static " if f.static else ""
+            dims = getattr(f, "dims", "") if not f.static and not f.init else ""      # array members: the element type decides
             if f.kind == "int":
-                s = "%sint f%d%s;" % (st, i, " = 1" if f.init and not f.static else "")
+                s = "%sint f%d%s%s;" % (st, i, dims, " = 1" if f.init and not f.static else "")
             elif f.kind == "cint":
-                s = "%sconst int f%d%s;" % (st, i, " = 2" if f.init else "")
+                s = "%sconst int f%d%s%s;" % (st, i, dims, " = 2" if f.init else "")
                 if f.static and not f.init:
                     s = "static const int f%d = 3;" % i
             elif f.kind == "ref":
@@ -162,6 +163,8 @@ def gen_hierarchy(rng, n, allow_virtual_bases=True, covariant_p=0.3, bias=None, 
                 f.init = False
             if kind == "ref":
                 f.init = False
+            if kind in ("int", "cint") and rng.random() < 0.3:
+                f.dims = rng.choice(["[2]", "[2][3]", "[1][2][2]", "[4]"])
             k.fields.append(f)
         inherited = set()
         for b in k.all_bases():
